@@ -90,6 +90,37 @@ def udpFinishClose (sc : Script) (ph : Phase) (id : Nat) (s : State) : State :=
   let s := modH s id (fun h => { h with wcq := h.wcq ++ h.wq.map (fun r => (r, (-125 : Int))), wq := [] })
   udpRunCompleted sc ph id s
 
+/-- uv__stream_io with a pending connect request whose error was deferred (stream.c:1195-1208, 1256-1306) -/
+def streamIo (sc : Script) (ph : Phase) (id : Nat) (s : State) : State :=
+  match getH s id with
+  | none => s
+  | some h =>
+    match h.connReq with
+    | none => s
+    | some r =>
+      let s := modH s id (fun h => { h with connReq := none })
+      let s := { s with ar := reqUnregister s.ar, reqs := s.reqs.filter (·.id != r) }
+      let s := ioStop s (.h id) POLLOUT
+      runCb sc ph .connect (.r r) r (-22) 0 0 s
+
+/-- uv__stream_destroy (stream.c:455-470): a pending connect is failed with UV_ECANCELED -/
+def streamDestroy (sc : Script) (id : Nat) (s : State) : State :=
+  match getH s id with
+  | none => s
+  | some h =>
+    match h.connReq with
+    | none => s
+    | some r =>
+      let s := { s with ar := reqUnregister s.ar, reqs := s.reqs.filter (·.id != r) }
+      let s := runCb sc .closing .connect (.r r) r (-125) 0 0 s
+      modH s id (fun h => { h with connReq := none })
+
+/-- `w->cb(loop, w, POLLOUT)` for a watcher taken from the pending queue -/
+def pendingIo (sc : Script) (ph : Phase) (id : Nat) (s : State) : State :=
+  match getH s id with
+  | none => s
+  | some h => if h.kind == .udp then udpIo sc ph id POLLOUT s else streamIo sc ph id s
+
 /-! ### uv__run_pending (core.c:842-856) -/
 def runPendingLoop (sc : Script) (ph : Phase) : Nat → State → State
   | 0, s => s
@@ -98,7 +129,7 @@ def runPendingLoop (sc : Script) (ph : Phase) : Nat → State → State
     | [] => s
     | id :: rest =>
       let s := { s with pendingLocal := rest }
-      runPendingLoop sc ph fuel (udpIo sc ph id POLLOUT s)
+      runPendingLoop sc ph fuel (pendingIo sc ph id s)
 
 def runPending (sc : Script) (ph : Phase) (s : State) : State :=
   let s := { s with pendingLocal := s.pending, pending := [] }
@@ -287,7 +318,8 @@ def finishClose (sc : Script) (id : Nat) (s : State) : State :=
   | none => s
   | some h =>
     let s := withKernel s id setClosed
-    let s := if h.kind == .udp then udpFinishClose sc .closing id s else s
+    let s := if h.kind == .udp then udpFinishClose sc .closing id s
+             else if h.kind == .pipe || h.kind == .tcp then streamDestroy sc id s else s
     let s := withKernel s id handleUnref
     match getF s id with
     | none => s
